@@ -382,7 +382,7 @@ def remOf (N : Nat) (dims : List Nat) : List Nat := (List.range N).filter (fun d
 
 /-- parameters of `tensor.ttv` over the modes `dims` (`sc`: every mode, a scalar results) -/
 def ttvP (N : Nat) (dims : List Nat) (sc : Bool) : Params :=
-  { perm := remOf N dims ++ dims, flag := if sc then "scalar" else "" }
+  { perm := remOf N dims ++ dims, flag := if sc then "scalar" else if dims.isEmpty then "none" else "" }
 
 /-- `ttv(vectors, dims)` (ttensor.py:427-441): per multiplied mode (`p.dims`, vectors in registers
 `p.perm`) `factors[dim].transpose().dot(vector)` (a view, then a new array); `self.core.ttv(W,
@@ -607,6 +607,55 @@ def sumtensor_ttv (p : Params) (ops : List View) : Built :=
   ((Acc.init b).calls (sumCalls p.n (fun i => partTtv p.n p.dims (p.flag == "scalar") (p.perm.getD i 0 == 1))
     (regs t p.dims.length) 0 0 p.kinds)).built
 
+/-! ### parameter corner cases: operations whose general case computes new arrays but which have a
+branch that only hands on a copy of an operand -/
+
+/-- `symmetrize(grps, version)` (tensor.py:1465-1580); operands: data (, grps).
+Default version: `data = self.data.copy()` (NumPy's default C order); per group either `continue`
+(every entry already equals its class exemplar) or `data = np.reshape(avg[linclassidx], shape,
+order="F")` (fancy indexing: a new array); finally `tensor(to_memory_order(data, "F"), copy=False)`.
+* flag "same": every group is already symmetric – that first copy is all that separates the result
+  from the receiver;
+* flag "": at least one group is averaged (the last averaging is what is wrapped);
+* flag "v1": `Y = tensor(np.zeros(shape), copy=False)`, then `Y = Y + self.permute(…)` per
+  permutation and `Y / total` (new tensors), then `Y.data[:] = np.maximum(…)`: a write into the
+  result's own new array. -/
+def tensor_symmetrize (p : Params) (ops : List View) : Built :=
+  let b := ops.length
+  if p.flag == "same" then
+    { prog := copyC 0 b ++ [.asF (b + 2)] ++ tensorCtor (b + 3) (b + 4) p.shape false, res := [("data", b + 5)] }
+  else if p.flag == "v1" then
+    { prog := [.fresh p.shape (List.range b)] ++ tensorCtor b (b + 1) p.shape false ++ [.write (b + 2) [b + 2, 0]],
+      res := [("data", b + 2)] }
+  else
+    { prog := copyC 0 b ++ [.fresh p.shape ((b + 2) :: List.range b), .reshapeF (b + 3) p.shape, .asF (b + 4)] ++
+              tensorCtor (b + 5) (b + 6) p.shape false,
+      res := [("data", b + 7)] }
+
+/-- `ttsv(vector, skip_dim)` with the default version (tensor.py:1917-1950); operands: data, vector.
+`y = self.data.copy()` (C order), one `reshape(…, "F")` + `dot` per multiplied mode (new arrays);
+flag "none": `skip_dim` is the last mode, NOTHING is multiplied and `y` is still that copy.
+`p.k` = number of modes of the result: 0 a Python float, 1 the vector `y`, 2
+`np.reshape(y, [sz, sz], "F")` (a bare matrix), more `tensor(np.reshape(y, …, "F"), copy=False)`
+(`p.shape`). -/
+def tensor_ttsv (p : Params) (ops : List View) : Built :=
+  let b := ops.length
+  let y : Step := if p.flag == "none" then .alias (b + 2) else .fresh [] ((b + 2) :: List.range b)
+  let pre : Prog := copyC 0 b ++ [y]
+  if p.k == 0 then { prog := pre, res := [] }
+  else if p.k == 1 then { prog := pre, res := [("arr", b + 3)] }
+  else if p.k == 2 then { prog := pre ++ [.reshapeF (b + 3) p.shape], res := [("arr", b + 4)] }
+  else { prog := pre ++ [.reshapeF (b + 3) p.shape] ++ tensorCtor (b + 4) (b + 5) p.shape false, res := [("data", b + 6)] }
+
+/-- `khatrirao(*matrices, reverse)` (khatrirao.py:59-67); operands: the matrices.  `P = matrices[0]`;
+a single matrix (`p.n == 1`): `P = P.copy()` (C order) – there is nothing to multiply; otherwise
+per further matrix a broadcast product of two reshaped views (a new array); at the end
+`np.reshape(P, (-1, ncol), order="F")` (`p.shape`). -/
+def func_khatrirao (p : Params) (ops : List View) : Built :=
+  let b := ops.length
+  if p.n == 1 then { prog := copyC 0 b ++ [.reshapeF (b + 2) p.shape], res := [("arr", b + 3)] }
+  else { prog := [.fresh [] (List.range b), .reshapeF b p.shape], res := [("arr", b + 1)] }
+
 /-- enough operands for the case: the flagged cases of the constructors need none -/
 def flagOr (flags : List String) (k : Nat) : Params → Nat → Bool :=
   fun p b => flags.contains p.flag || decide (k ≤ b)
@@ -667,7 +716,10 @@ def table2 : List Entry := [
   ⟨"sumtensor", "double", pf, sumtensor_double, fun p b => sumPre (fun _ => 0) p b && !p.kinds.isEmpty && decide (0 < p.n)⟩,
   ⟨"sumtensor", "innerprod", pf, sumtensor_innerprod, sumPre⟩,
   ⟨"sumtensor", "mttkrp", pf, sumtensor_mttkrp, sumPre⟩,
-  ⟨"sumtensor", "ttv", pf, sumtensor_ttv, sumPre (·.dims.length)⟩
+  ⟨"sumtensor", "ttv", pf, sumtensor_ttv, sumPre (·.dims.length)⟩,
+  ⟨"tensor", "symmetrize", pf, tensor_symmetrize, noPre⟩,
+  ⟨"tensor", "ttsv", pf, tensor_ttsv, noPre⟩,
+  ⟨"func", "khatrirao", pf, func_khatrirao, noPre⟩
 ]
 
 /-- the whole table: part 3 and part 4 -/
